@@ -185,13 +185,19 @@ def cases(tier, seed):
     for st in starts:
         for rx, ry in itertools.product(radii, radii):
             yield {"fam": "blk", "start": list(st), "rx": rx, "ry": ry, "rots": rots, "ends": [list(e) for e in es]}
+    # the same arcs in another unit of length: everything (start, radii, end) multiplied by 10^k
+    for k in ([-9, -6, 6, 8, 9] if tier == "quick" else [-12, -9, -8, -7, -6, -3, 3, 6, 7, 8, 9, 12]):
+        m = 10.0 ** k
+        for st in [(0.0, 0.0), (17.5 * m, -4.25 * m)]:
+            for rx, ry in [(3, 1), (10, 10), (1, 7.5), (0.25, 3), (-3, 10)]:
+                yield {"fam": "blk", "start": list(st), "rx": rx * m, "ry": ry * m, "rots": [0, 30, 135, -30], "ends": [[e[0] * m, e[1] * m] for e in es[:: 1 if tier == "thorough" else 2]]}
     yield from boundary_cases()
 
 
 def run(run):
     run.rule = (
         "E2 product lattice: start x rx,ry in " + repr(RADII) + " x rotation in " + repr(ROTS) + " x 4 flag pairs x end-point lattice "
-        "(incl. the start itself) + boundary families chord = 2rx(1 +- 1e-9, 1e-6), chord >> radii; relative arcs through SVGPath.arcs_to_cubics. "
+        "(incl. the start itself) + the same arcs with start, radii and end multiplied by 10^k (k in -9..9; thorough -12..12) + boundary families chord = 2rx(1 +- 1e-9, 1e-6), chord >> radii; relative arcs through SVGPath.arcs_to_cubics. "
         "Oracle: F.6.5/F.6.6 centre parametrisation; 17 samples per cubic mapped into the unit-circle frame of the corrected ellipse "
         "(radius within 3e-4, polar angle monotone in sweep direction, total = selected extent), exact end point, line for zero radius, nothing "
         "for coincident end points. Non-trivial = proper arc or line case that the implementation returned segments for (distinct argument tuples)."
